@@ -199,6 +199,17 @@ static void ref_cmp(const Ctx *x, Ref *r) {            /* strcmp_s strcasecmp_s 
         if (a != b || !a) { r_out(r, sgn((long)a - (long)b)); r->sign_only = 1; return; }
     }
 }
+static void ref_natcmp(const Ctx *x, Ref *r) {         /* strnatcmp_s wcsnatcmp_s: for operands of ASCII letters only (no digit runs, no blanks) the natural order is the plain one, folded if asked */
+    QO q; qo(x, &q); int ci = x->c->c != 0;
+    if (!q.sterm || !q.dterm) { r->verdict = V_ANY; return; }
+    for (long k = 0; k < q.dn; k++) if (!((q.d[k] | 0x20) >= 'a' && (q.d[k] | 0x20) <= 'z')) { r->verdict = V_ANY; return; }
+    for (long k = 0; k < q.sn; k++) if (!((q.s[k] | 0x20) >= 'a' && (q.s[k] | 0x20) <= 'z')) { r->verdict = V_ANY; return; }
+    for (long i = 0;; i++) {
+        unsigned long a = i < q.dn ? q.d[i] : 0, b = i < q.sn ? q.s[i] : 0;
+        if (ci) { a = fold(a); b = fold(b); }
+        if (a != b || !a) { r_out(r, sgn((long)a - (long)b)); r->sign_only = 1; return; }
+    }
+}
 static void ref_ncmp(const Ctx *x, Ref *r) {           /* wcsncmp_s: the sign wcsncmp gives over the first min(count, dmax, smax) elements */
     QO q; qo(x, &q); long cnt = x->c->k;
     for (long i = 0;; i++) {
@@ -361,7 +372,7 @@ Fn fntab[] = {
     ROW(strcmp_s,       "Q n S oI bd bs", 1, 1, 1, 1, RT_E, LIM_STR, F_QRY, ref_cmp),
     ROW(strcasecmp_s,   "Q n S oI bd",    1, 1, 1, 1, RT_E, LIM_STR, F_QRY, ref_cmp),
     ROW(strcoll_s,      "Q n S oI bd",    1, 1, 1, 1, RT_E, LIM_STR, F_QRY, ref_cmp),
-    ROW(strnatcmp_s,    "Q n S c oI bd bs", 1, 1, 1, 1, RT_E, LIM_STR, F_QRY, NULL),
+    ROW(strnatcmp_s,    "Q n S c oI bd bs", 1, 1, 1, 1, RT_E, LIM_STR, F_QRY, ref_natcmp),
     ROW(strcmpfld_s,    "Q n T oI bd",    1, 1, 1, 1, RT_E, LIM_STR, F_QRY | F_SAMELEN, ref_cmpfld),
     ROW(strstr_s,       "Q n S l oP bd bs", 1, 1, 1, 1, RT_E, LIM_STR, F_QRY, ref_str),
     ROW(strcasestr_s,   "Q n S l oP bd bs", 1, 1, 1, 1, RT_E, LIM_STR, F_QRY, ref_str),
@@ -396,7 +407,7 @@ Fn fntab[] = {
     ROW(wcscmp_s,       "Q n S l oI bd bs", 4, 4, 4, 4, RT_E, LIM_WSTR, F_QRY | F_WIDE, ref_cmp),
     ROW(wcsncmp_s,      "Q n S l k oI bd bs", 4, 4, 4, 4, RT_E, LIM_WSTR, F_QRY | F_WIDE, ref_ncmp),
     ROW(wcsicmp_s,      "Q n S l oI bd bs", 4, 4, 4, 4, RT_E, LIM_WSTR, F_QRY | F_WIDE, ref_cmp),
-    ROW(wcsnatcmp_s,    "Q n S l c oI bd bs", 4, 4, 4, 4, RT_E, LIM_WSTR, F_QRY | F_WIDE, NULL),
+    ROW(wcsnatcmp_s,    "Q n S l c oI bd bs", 4, 4, 4, 4, RT_E, LIM_WSTR, F_QRY | F_WIDE, ref_natcmp),
     ROW(wcscoll_s,      "Q n S l oI bd bs", 4, 4, 4, 4, RT_E, LIM_WSTR, F_QRY | F_WIDE, ref_cmp),
     ROW(wcsstr_s,       "Q n S l oP bd bs", 4, 4, 4, 4, RT_E, LIM_WSTR, F_QRY | F_WIDE, ref_str),
 };
